@@ -221,7 +221,16 @@ fn main() {
         while !done.load(std::sync::atomic::Ordering::SeqCst) && attempts < 400 {
             let r = guarded(|| index.writer_with_num_threads::<TantivyDocument>(1, 15_000_000));
             let still_waiting = !done.load(std::sync::atomic::Ordering::SeqCst);
-            if still_waiting { attempts += 1; if matches!(r, Ok(Ok(_))) { intruders += 1; } }
+            if still_waiting {
+                attempts += 1;
+                if matches!(r, Ok(Ok(_))) {
+                    // the waiter sets `done` only AFTER wait_merging_threads() returned (and released the lock): a success
+                    // in that instant is legitimate.  It is an intruder only if the first writer is STILL waiting for its
+                    // (slowed-down) merge a good while later.
+                    std::thread::sleep(std::time::Duration::from_millis(30));
+                    if !done.load(std::sync::atomic::Ordering::SeqCst) { intruders += 1; }
+                }
+            }
             drop(r);
             std::thread::sleep(std::time::Duration::from_millis(2));
         }
